@@ -160,6 +160,10 @@ def run_login(w, sc, mon):
         decide("proof_truncated", k, sc["user"], K, want[:k] + bytes(20 - k), cs)
     other = un[:-1] + ("Y" if un[-1] != "Y" else "Z")
     decide("other_name", 0, other, K, want, cs)
+    if sc.get("other_name_override"):
+        # the name that collides with this one under a 32-bit string hash: its server must refuse this proof
+        decide("colliding_name", 0, sc["other_name_override"], K, want, cs)
+        decide("honest_again", 1, sc["user"], K, want, cs)
     if len(un) < 16:
         decide("name_extended", 0, un + "A", K, want, cs)
     # finish with the honest presentation again, so that the last computation of this login is the honest one
@@ -220,12 +224,35 @@ def related_history(w, rnd, mon, x):
         mon.count("related_name_logins")
 
 
+def colliding_names(w, rnd, mon, x, pairs):
+    """Two accounts whose names collide under a common 32-bit string hash log in one after the other with the same key and
+    seeds; the proof made for one name must be refused for the other."""
+    for (hname, a, b) in pairs:
+        base = make(rnd, x, False, False)
+        base["cseed"], base["sseed"] = rnd.getrandbits(32), rnd.getrandbits(32)
+        for first, second in ((a, b), (b, a)):
+            for name in (first, second, first):
+                sc = dict(base)
+                sc["user"] = name
+                sc["cuser"] = name.lower()
+                sc["pseed"] = rnd.getrandbits(32)
+                sc["other_name_override"] = second if name == first else first
+                run_login(w, sc, mon)
+        mon.count("colliding_name_pairs")
+
+
 def worker(idx, nworkers, tier, seed, extra):
     mon = Monitor()
     rnd = rng_for(seed, "c06", idx)
     nfull, nsamp = {"quick": (6, 700), "thorough": (200, 50000)}[tier]
     w = Wsx()
     try:
+        from common import load_name_collisions
+        pairs = load_name_collisions()
+        if pairs:
+            mine = [p for i, p in enumerate(pairs) if i % nworkers == idx]
+            for x in ("v", "t", "w"):
+                colliding_names(w, rnd, mon, x, mine)
         # the three modules are interleaved on one executor (order of use must not matter)
         for i in range(nfull):
             for x in rnd.sample(("v", "t", "w"), 3):
